@@ -672,6 +672,46 @@ class InheritedSubscriber(RecordingSubscriber):
     per-use subclasses that only carry data)."""
 
 
+class SharedSubscriber(BaseSubscriber):
+    """ONE subscriber object given to several transfers (a progress printer, a result collector): which transfer a callback is about
+    is what its ``future`` argument says.  Each call is attributed by the key in future.meta.call_args and recorded by an inner
+    per-transfer recorder, so the usual per-transfer oracles apply."""
+
+    def __init__(self, world, label, name='s0', behav=None):
+        self.w, self.label, self.name, self.behav = world, label, name, dict(behav or {})
+        self._inner = {}
+        self._lock = threading.Lock()
+
+    def _for(self, future):
+        key = future.meta.call_args.key
+        lbl = None
+        for (bk, k), l in list(self.w.s3.labels.items()):
+            if k == key:
+                lbl = l
+                break
+        lbl = lbl or self.label
+        with self._lock:
+            if lbl not in self._inner:
+                self._inner[lbl] = RecordingSubscriber(self.w, lbl, self.name, self.behav)
+            return self._inner[lbl]
+
+    def view(self, label):
+        """The recorder holding what was delivered for the transfer `label` (an empty one if nothing was)."""
+        with self._lock:
+            if label not in self._inner:
+                self._inner[label] = RecordingSubscriber(self.w, label, self.name, self.behav)
+            return self._inner[label]
+
+    def on_queued(self, future, **kwargs):
+        return self._for(future).on_queued(future, **kwargs)
+
+    def on_progress(self, future, bytes_transferred, **kwargs):
+        return self._for(future).on_progress(future, bytes_transferred, **kwargs)
+
+    def on_done(self, future, **kwargs):
+        return self._for(future).on_done(future, **kwargs)
+
+
 class FalsySubscriber(RecordingSubscriber):
     """A subscriber object that is FALSY when handed over (a result collector whose len() is the number of results so far, a recorder
     derived from list / dict): still a subscriber, every callback is due."""
